@@ -656,6 +656,18 @@ class TestBidiInputSchemaValidation:
             with pytest.raises(RpcError, match="Input schema mismatch"):
                 session.exchange(AnnotatedBatch.from_pydict({"value": [1.0], "extra": [2.0]}))
 
+    def test_duplicated_column_raises(self) -> None:
+        """A declared column sent twice is a schema mismatch, not an unhandled KeyError."""
+        dup = pa.RecordBatch.from_arrays(
+            [pa.array([1.0]), pa.array([2.0])],
+            schema=pa.schema([pa.field("value", pa.float64()), pa.field("value", pa.float64())]),
+        )
+        with edge_conn() as proxy:
+            session = proxy.passthrough_with_input_schema()
+            with pytest.raises(RpcError, match="Input schema mismatch") as excinfo:
+                session.exchange(AnnotatedBatch(batch=dup))
+            assert excinfo.value.error_type == "TypeError"
+
     def test_correct_schema_succeeds(self) -> None:
         """Correct input schema passes validation."""
         with edge_conn() as proxy:
